@@ -72,7 +72,8 @@ def bounds(tier):
 
 # ----------------------------------------------------------------------------- initial trees
 SCHEMES = ("pow2-named", "pow2rev-unnamed", "ones-unnamed", "nasty-named")
-SMALL_SCHEMES = ("quotes-named", "blankends-named")  # only for <= 3 tips
+SMALL_SCHEMES = ("quotes-named", "blankends-named", "dquotes-named")  # only for <= 3 tips
+DQUOTES = ['"a"', '"x', 'y"z']  # a double quote at the start / inside a name
 BLANKENDS = [" a", "b ", " c d "]  # a blank at the start / end of a name
 MID_SCHEMES = ("edgelike-mixed",)  # for <= 4 tips: user names that look like the library's generated ones, next to unnamed nodes
 EDGELIKE = ["edge.1", "b", "c", "d"]
@@ -81,14 +82,14 @@ EDGELIKE = ["edge.1", "b", "c", "d"]
 def initial_model(shape, scheme):
     """model tree for an unlabeled shape under a naming / length scheme"""
     n_edges = sum(1 for _ in _walk_shape(shape)) - 1
-    if scheme in ("pow2-named", "nasty-named", "quotes-named", "edgelike-mixed", "blankends-named"):
+    if scheme in ("pow2-named", "nasty-named", "quotes-named", "edgelike-mixed", "blankends-named", "dquotes-named"):
         lens = [2.0 ** (k - 2) for k in range(n_edges)]
     elif scheme == "pow2rev-unnamed":
         lens = [2.0 ** (k - 2) for k in range(n_edges)][::-1]
     else:
         lens = [1.0] * n_edges
-    names = BLANKENDS if scheme == "blankends-named" else NASTY if scheme == "nasty-named" else (QUOTES if scheme == "quotes-named" else (EDGELIKE if scheme == "edgelike-mixed" else PLAIN))
-    named = scheme in ("pow2-named", "nasty-named", "quotes-named", "blankends-named")
+    names = DQUOTES if scheme == "dquotes-named" else BLANKENDS if scheme == "blankends-named" else NASTY if scheme == "nasty-named" else (QUOTES if scheme == "quotes-named" else (EDGELIKE if scheme == "edgelike-mixed" else PLAIN))
+    named = scheme in ("pow2-named", "nasty-named", "quotes-named", "blankends-named", "dquotes-named")
     tip_i = itertools.count()
     int_i = itertools.count(1)
     len_i = iter(lens)
@@ -904,6 +905,11 @@ def shards(tier, seed):
                 for scheme in SCHEMES:
                     if scheme not in schemes:
                         out.append({"part": "bfs", "n": n, "shape": si, "scheme": scheme, "depth": 2})
+    # the same shapes below a chain of one / two single-child nodes at the root (what pruning leaves behind)
+    for n in range(2, 5):
+        for si, _shape in enumerate(tg.shapes(n)):
+            for wrap in (1, 2):
+                out.append({"part": "bfs", "n": n, "shape": si, "scheme": "pow2-named", "depth": 1 if tier == "quick" else 2, "wrap": wrap})
     sc = b["nodedup_selfcheck"]
     for n in range(2, sc["max_tips"] + 1):
         for si, _shape in enumerate(tg.shapes(n)):
@@ -923,6 +929,8 @@ def shards(tier, seed):
 def run_shard(spec, acc):
     if spec["part"] == "bfs":
         shape = tg.shapes(spec["n"])[spec["shape"]]
+        for _ in range(spec.get("wrap", 0)):
+            shape = (shape,)
         init = initial_model(shape, spec["scheme"])
         if spec.get("nodedup"):
             # self-check of the canonical key: the same bound with and without merging must give the same verdict
